@@ -333,3 +333,27 @@ def unbounded_joins(eq, handle, recyc):
                 continue
         badj.append((m, n))
     return joins, badj
+
+
+def terminate_event_clause(ctx, res, clause, prop, cid):
+    """the shared terminate event is clear whenever the dispatch routine is left"""
+    repo = ctx.repo
+    eq = em.equalizer(repo)
+    excm = ctx.excm(em.EQ_SCOPE)
+    pol = em.EqPolicy(repo, excm)
+    ww = eq.lookup('_play_and_compare_recording_within_worker')
+    term = None
+    for (c, f), t in pol.field_types.items():
+        if c == eq.name and t == ('lib', 'multiprocessing.Event'):
+            term = f
+    if ww is None or term is None:
+        raise AnalysisError('anchor-lost role=dispatch routine / terminate event')
+    dw = small.analyse(repo, excm, ww, policy=InlineEq(repo, excm), domain=em.EqDomain)
+    clause.evaluations += dw.visited_pairs
+    bade = [(n, s) for n, s in dw.exits if s.extra.get('ev:' + term) == 'set']
+    clause.instance('the terminate event is clear at every exit of the dispatch routine (%d exits)' % len(dw.exits), ww.qualname, not bade)
+    if bade:
+        n, s = bade[0]
+        res.add(Finding(prop, cid, 'R-ABSINT', ww.file, ww.qualname, ww.node.lineno, 'terminate event left set',
+                        'the dispatch routine can be left (%s) with the shared terminate event still set: every worker created afterwards exits '
+                        'immediately, so all later recordings fail although they are fine' % n.info['exit'], witness=dw.path_to(n, s), exit=n.info['exit']))
